@@ -48,6 +48,33 @@ func (ws *ScopeWS) AddFileNamedLikeAGlobal(r *Rng) string {
 	return n
 }
 
+// WithRequireOfModuleNamedLikeAGlobal returns the workspace extended by a module file whose name is that of a global one
+// of the files uses, and by a `require("<name>")` at the top of that file (the old global-module idiom: the module's
+// file name and the global it is used through coincide; what the name is bound to does not depend on the require).
+func (ws *ScopeWS) WithRequireOfModuleNamedLikeAGlobal(r *Rng) (*ScopeWS, string) {
+	var names []string
+	for n, uses := range ws.GlobalUses {
+		if len(uses) > 0 && !luaBuiltins[n] {
+			names = append(names, n)
+		}
+	}
+	if len(names) == 0 {
+		return ws, ""
+	}
+	sort.Strings(names)
+	n := names[r.Intn(len(names))]
+	site := ws.GlobalUses[n][r.Intn(len(ws.GlobalUses[n]))]
+	files := ws.FileMap()
+	files[site.File.Rel] = "require(\"" + n + "\")\n" + files[site.File.Rel]
+	files["lib/"+n+".lua"] = "local filler = 1\nreturn filler\n"
+	nw, ok := ScopeWSFromFiles(files)
+	if !ok {
+		return ws, ""
+	}
+	nw.Roots, nw.Late = ws.Roots, ws.Late
+	return nw, n
+}
+
 // Reroot spreads the files over several workspace folders that lie next to each other (none inside another).
 func (ws *ScopeWS) Reroot(roots []string) {
 	ws.Roots = roots
